@@ -43,7 +43,7 @@ def step : List String → String
     match boolTok x64, intTok len, natsTok cs with
     | some x64, some len, some cs => showPy showOptTxt (randomStagerUri x64 len cs)
     | _, _, _ => "bad-op"
-  | ["gate", req, ext] =>
+  | ["gate", req, ext, _method] =>
     match optTok bytesTok req, boolTok ext with
     | some req, some ext =>
       match findStagedBeacon (req.map asciiIgnore) (if ext then some () else none) with
